@@ -23,6 +23,28 @@ def rule(name: str, props: list[str], text: str, min_instances: int = 1, tier: s
     return deco
 
 
+_ANCHORS: dict[str, set[str]] | None = None
+
+
+def anchor_props(module_name: str) -> set[str]:
+    """Properties whose anchors (properties.jsonl, `anchors.files`) list the source file of this module: a defect of a
+    whole-program rule (process-lifetime state, aliasing) found in that file is a defect of the behaviour anchored there."""
+    global _ANCHORS
+    if _ANCHORS is None:
+        import json
+        from pathlib import Path
+
+        _ANCHORS = {}
+        pf = Path(__file__).resolve().parent.parent / "properties.jsonl"
+        for line in pf.read_text().splitlines():
+            if line.strip():
+                pr = json.loads(line)
+                for f_ in pr.get("anchors", {}).get("files", []):
+                    _ANCHORS.setdefault(f_, set()).add(pr["id"])
+    rel = module_name.replace(".", "/")
+    return set(_ANCHORS.get(rel + ".py", set())) | set(_ANCHORS.get(rel + "/__init__.py", set()))
+
+
 def rules_for(prop: str, tier: str) -> list[str]:
     out = []
     for n, r in RULES.items():
@@ -36,7 +58,15 @@ def run_rule(name: str, repo) -> RuleResult:
 
     r = RULES[name]
     res = RuleResult(rule=name, text=r["text"], min_instances=r["min_instances"])
-    r["fn"](repo, res)
+    try:
+        r["fn"](repo, res)
+    except AnalysisError as e:
+        # what the rule had already decided stands: a violation found before the rule met something it cannot judge is reported
+        # (with the unjudged remainder as a note); without findings the error is the rule's outcome
+        if not res.findings:
+            raise
+        res.notes.append(f"the rest of this rule could not be judged ({e}); the findings above were decided before that point")
+        return res
     if len(res.instances) < res.min_instances and not res.findings:
         raise AnalysisError(
             f"rule {name} matched {len(res.instances)} instances, fewer than the {res.min_instances} "
